@@ -67,22 +67,29 @@ def err_kind(se, body, bb):
     return None
 
 
-def classify(ctx, fn):
-    """abstract evaluation of a validity function over the key parameter (param 1).
+def classify(ctx, fn, key=None, built=None):
+    """abstract evaluation of a validity function over the key under test: the key parameter
+    (param 1), or - `key` given - the 32-byte value a function goes on to store in a PublicKey.
     Returns list of (outcome, sets) where sets is a list of 32 frozensets of byte values: the
-    keys with key[i] in sets[i] for all i have that outcome.  Outcome = ("Ok",None)|("Err",kind)."""
+    keys with key[i] in sets[i] for all i have that outcome.  Outcome = ("Ok",None)|("Err",kind).
+    built (a list) receives (bb, sets, excluded points) for every block constructing a PublicKey
+    on an explored path: the keys that can reach that construction."""
     se = ctx.wrap.run(fn)
     if se is None:
         raise Undecided("validity function %s not found" % fn)
     body = se.body
-    kty = body.local_ty(1).peel_refs()
-    if kty.k != "array" or kty.len != 32:
-        raise Undecided("parameter is not a 32-byte array")
+    KEY = ("param", 1) if key is None else strip(key)
+    if key is None:
+        kty = body.local_ty(1).peel_refs()
+        if kty.k != "array" or kty.len != 32:
+            raise Undecided("parameter is not a 32-byte array")
     loops = util.for_loops(ctx, se)
+    if key is not None and loops:
+        raise Undecided("a loop in a function that validates a derived key")
     out = []
     if not loops:
         # ---------------- form A: decisions by whole-array equality against constants
-        def explore(bb, sets, seen):
+        def explore(bb, sets, seen, excl=()):
             if bb in seen:
                 raise Undecided("unexpected loop")
             info = se.term_info.get(bb, {})
@@ -91,6 +98,8 @@ def classify(ctx, fn):
             o = None
             for si, s in enumerate(body.blocks[bb]["stmts"]):
                 if s["k"] == "assign" and s["rv"]["k"] == "aggregate" and s["rv"].get("ak") == "adt":
+                    if s["rv"]["path"] == PK and built is not None:
+                        built.append((bb, list(sets), tuple(excl)))
                     if s["rv"]["path"] == ERR:
                         o = ("Err", s["rv"]["vname"])
                     elif s["rv"]["path"] == "std::result::Result" and s["rv"]["vname"] == "Ok" and o is None:
@@ -103,9 +112,9 @@ def classify(ctx, fn):
                 # a decision on one byte of the key (`match *key { CONST => .. }` is lowered to a
                 # byte-by-byte decision tree): split the product set on that byte
                 kb = None
-                if d[0] == "cindex" and d[1] == ("param", 1) and not d[3]:
+                if d[0] == "cindex" and d[1] == KEY and not d[3]:
                     kb = d[2]
-                elif d[0] == "index" and d[1] == ("param", 1) and d[2][0] == "int":
+                elif d[0] == "index" and d[1] == KEY and d[2][0] == "int":
                     kb = d[2][1]
                 if kb is not None and 0 <= kb < 32:
                     used = set()
@@ -114,11 +123,11 @@ def classify(ctx, fn):
                         ns[kb] = sets[kb] & frozenset([v_])
                         used.add(v_)
                         if ns[kb]:
-                            explore(tgt, ns, seen | {bb})
+                            explore(tgt, ns, seen | {bb}, excl)
                     ns = list(sets)
                     ns[kb] = sets[kb] - frozenset(used)
                     if ns[kb]:
-                        explore(info["otherwise"], ns, seen | {bb})
+                        explore(info["otherwise"], ns, seen | {bb}, excl)
                     return
                 neg = False
                 while d[0] == "unop" and d[1] == "Not":
@@ -133,17 +142,17 @@ def classify(ctx, fn):
                         ca, cb = const_array(a), const_array(b)
                         keyside = strip(b) if ca is not None else strip(a)
                         c = ca if ca is not None else cb
-                        if c is not None and keyside == ("param", 1) and len(c) == 32:
+                        if c is not None and keyside == KEY and len(c) == 32:
                             is_eq = t["callee"].endswith("::eq") != neg
                             t_true, t_false = info["otherwise"], tg[0][1]
                             eq_t, ne_t = (t_true, t_false) if is_eq else (t_false, t_true)
                             # equal: key == c  (intersect)
                             es = [s & frozenset([c[i]]) for i, s in enumerate(sets)]
                             if all(es):
-                                explore(eq_t, es, seen | {bb})
+                                explore(eq_t, es, seen | {bb}, excl)
                             # unequal: remove the single point c from a product set - representable
                             # only if sets is a single point or the whole space minus earlier points
-                            explore_ne(ne_t, sets, c, seen | {bb})
+                            explore_ne(ne_t, sets, c, seen | {bb}, excl)
                             return
                 # key.iter().all(|&b| b == c)  ==  (key == [c; 32]);  key.iter().any(|&b| b != c) is its negation
                 if util.is_call(d) and d[1].split("::")[-1] in ("all", "any") and "Iterator" in d[1] and len(tg) == 1 and tg[0][0] == 0:
@@ -153,7 +162,7 @@ def classify(ctx, fn):
                     it = strip(it) if it is not None else None
                     cl = d[2][1]
                     cval = None
-                    if it is not None and util.is_call(it, "core::slice::<impl [T]>::iter") and canon(ctx, se, it[2][0]) == ("param", 1) and cl[0] == "agg" and cl[1] == "closure" and not cl[4]:
+                    if it is not None and util.is_call(it, "core::slice::<impl [T]>::iter") and canon(ctx, se, it[2][0]) == KEY and cl[0] == "agg" and cl[1] == "closure" and not cl[4]:
                         cse = ctx.flat.run(cl[2])
                         r = util.numnorm(cse.ret) if cse is not None else None
                         want = "Eq" if d[1].endswith("all") else "Ne"
@@ -166,21 +175,21 @@ def classify(ctx, fn):
                         eq_t, ne_t = (t_true, t_false) if is_eq else (t_false, t_true)
                         es = [s_ & frozenset([c[i]]) for i, s_ in enumerate(sets)]
                         if all(es):
-                            explore(eq_t, es, seen | {bb})
-                        explore_ne(ne_t, sets, c, seen | {bb})
+                            explore(eq_t, es, seen | {bb}, excl)
+                        explore_ne(ne_t, sets, c, seen | {bb}, excl)
                         return
                 raise Undecided("unrecognised decision %s" % show(d, maxdepth=3))
             if k == "return":
                 raise Undecided("path without a verdict")
             for s_ in body.succs(bb):
-                explore(s_, sets, seen | {bb})
+                explore(s_, sets, seen | {bb}, excl)
 
         excluded = []
 
-        def explore_ne(bb, sets, c, seen):
+        def explore_ne(bb, sets, c, seen, excl=()):
             # track excluded points separately: the remaining set is `sets` minus points
             excluded.append(c)
-            explore(bb, sets, seen)
+            explore(bb, sets, seen, tuple(excl) + (bytes(c),))
 
         explore(0, [ALLB] * 32, frozenset())
         # the Ok outcome covers sets minus all excluded points; reject outcomes are the points
@@ -355,6 +364,51 @@ def witness(sets, avoid):
     return None
 
 
+def gated_construction(ctx, fn, want):
+    """a function other than from_le_bytes that builds a PublicKey itself: the same reject-set
+    exploration, with the value it stores as the key under test.  Holds when the decisions of
+    the function refuse exactly {0, N} (with the right kinds) of that very value and no key of
+    the reject set can reach a construction site."""
+    se = ctx.wrap.run(fn)
+    if se is None:
+        return False, "not analysable"
+    body = se.body
+    aggs = util.blocks_constructing(body, PK)
+    keys = set()
+    for bi, si, _ in aggs:
+        a = se.assigns.get((bi, si))
+        if a is None or a[1][0] != "agg" or len(a[1][4]) != 1:
+            return False, "construction not understood"
+        keys.add(strip(a[1][4][0]))
+    if len(keys) != 1:
+        return False, "stores %d different values" % len(keys)
+    K = keys.pop()
+    built = []
+    try:
+        res, form, excluded = classify(ctx, fn, key=K, built=built)
+    except Undecided as e:
+        return False, "no recognised validity decision on the stored value (%s)" % e
+    found = {}
+    for o, sets in res:
+        if o[0] != "Err":
+            continue
+        if size(sets) > 4:
+            return False, "refuses %d keys" % size(sets)
+        import itertools
+
+        for el in itertools.product(*[sorted(x) for x in sets]):
+            found[bytes(el)] = o[1]
+    if found != want:
+        return False, "reject set of the stored value is %s" % {k.hex()[:12] + "..": v for k, v in found.items()}
+    if not built:
+        return False, "no construction on an explored path"
+    for bb, sets, excl in built:
+        for p_ in want:
+            if all(p_[i] in sets[i] for i in range(32)) and p_ not in excl:
+                return False, "the key %s.. can reach the construction" % p_.hex()[:12]
+    return True, "%s stores %s behind its own decisions, reject set {0 -> PublicKeyIsZero, N -> PublicKeyModLargeSafePrimeIsZero}" % (fn, show(K, maxdepth=2))
+
+
 def check(ctx, rep):
     fb = ctx.fb
     N = fb.const_bytes("primes::LARGE_SAFE_PRIME_LITTLE_ENDIAN")
@@ -481,10 +535,16 @@ def check(ctx, rep):
     good = ase is not None and canon(ctx, ase, ase.ret) == ("param", 1)
     rep.check(good, "identity", PK + "::as_le_bytes", "returns-field", "as_le_bytes() returns the stored array", "as_le_bytes does not return the stored key")
     # ---- every construction validated
-    sites = util.aggregates(fb, PK)
+    absorbed = fb.absorbed()
+    sites = [x for x in util.aggregates(fb, PK) if x[0].path not in absorbed]
     allowed = {FN, PK + "::client_try_from_bigint"}
-    bad = [b.path for b, _, _, _ in sites if b.path not in allowed and not (b.kind == "Closure" and b.d.get("parent") in allowed)]
-    rep.check(bool(sites) and not bad, "validated", PK, "who-may-construct", "PublicKey constructed only in %s" % sorted({b.path for b, _, _, _ in sites}), "PublicKey is constructed without validation in %s" % bad)
+    gated = {}
+    for b, _, _, _ in sites:
+        if b.path not in allowed and b.kind != "Closure" and b.path not in gated:
+            gated[b.path] = gated_construction(ctx, b.path, want)
+    bad = [b.path for b, _, _, _ in sites if b.path not in allowed and not (b.kind == "Closure" and b.d.get("parent") in allowed) and not gated.get(b.path, (False,))[0]]
+    why_bad = "; ".join("%s: %s" % (k_, v_[1]) for k_, v_ in sorted(gated.items()) if not v_[0])
+    rep.check(bool(sites) and not bad, "validated", PK, "who-may-construct", "PublicKey constructed only in %s%s" % (sorted({b.path for b, _, _, _ in sites}), "".join("; %s: %s" % (k_, v_[1]) for k_, v_ in sorted(gated.items()))), "PublicKey is constructed without validation in %s%s" % (bad, (" (" + why_bad + ")") if why_bad else ""))
     pubf = [f["name"] for f in fb.adt_fields(PK) if f["pub"]]
     rep.check(not pubf, "validated", PK, "private-fields", "field private", "public field %s" % pubf)
     if "srp-default-math" in ctx.features:
@@ -493,7 +553,11 @@ def check(ctx, rep):
         if tse is not None:
             r = strip(tse.ret)
             good = util.is_call(r, FN) or any(i.get("k") == "call" and i["name"] == FN and strip(i.get("ret", i["term"])) == r for i in tse.term_info.values())
-        rep.check(good, "validated", PK + "::try_from_bigint", "server-B", "the server's own B goes through from_le_bytes", "try_from_bigint does not validate through from_le_bytes")
+            why = "the server's own B goes through from_le_bytes"
+            if not good:
+                g = gated.get(PK + "::try_from_bigint") or gated_construction(ctx, PK + "::try_from_bigint", want)
+                good, why = g[0], "the server's own B is validated in place: " + g[1]
+        rep.check(good, "validated", PK + "::try_from_bigint", "server-B", why, "try_from_bigint does not validate through from_le_bytes")
         client_test(ctx, rep)
 
 
